@@ -561,10 +561,10 @@ func (s *apFakeStream) SendHeader(md metadata.MD) error {
 	}
 	return nil
 }
-func (s *apFakeStream) SetTrailer(metadata.MD)       {}
-func (s *apFakeStream) Context() context.Context     { return s.ctx }
-func (s *apFakeStream) SendMsg(m any) error          { return nil }
-func (s *apFakeStream) RecvMsg(m any) error          { return nil }
+func (s *apFakeStream) SetTrailer(metadata.MD)   {}
+func (s *apFakeStream) Context() context.Context { return s.ctx }
+func (s *apFakeStream) SendMsg(m any) error      { return nil }
+func (s *apFakeStream) RecvMsg(m any) error      { return nil }
 func (s *apFakeStream) take() []*rproto.WALStreamResponse {
 	s.mu.Lock()
 	defer s.mu.Unlock()
